@@ -23,6 +23,7 @@ package balanced
 //@   ensures[full_or_out_of_data] err == nil && old(node) != nil ==> childCount(old(node)) == db.maxlinks || exhausted(db)
 //@   ensures[reports_the_recorded_size] err == nil && old(node) != nil ==> nodeFileSize == recorded(old(node))
 //@   ensures[depth_checked] depth < 1 ==> err != nil
+//@   ensures[a_real_node] err == nil ==> realNode(filledNode)
 
 // layoutData: each round puts the tree built so far under a new root as its first child and fills
 // the rest of that root one level deeper than before
@@ -34,6 +35,8 @@ package balanced
 //@   loop 0 invariant[depth_counts_up_from_one] depth >= 1
 //@   site[old_root_becomes_first_child] call:FSNodeOverDag.AddChild : childCount(arg0) == 0 && arg1 == root && arg2 == fileSize
 //@   site[fills_the_new_root_at_the_next_depth] call:fillNodeRec : arg2 == depth && depth >= 1 && childCount(arg1) == 1
+//@   loop 0 invariant[a_real_node] realNode(root)
+//@   ensures[a_real_node] err == nil ==> realNode(result0)
 
 //@ func Layout
 //@   prop C07
